@@ -21,6 +21,7 @@ def handle (j : Json) : Json :=
     | .ok d => Json.mkObj [("model", Json.mkObj [("status", "ok"), ("str", d.str)])]
     | .error e => Json.mkObj [("model", errJson e)]
   | "graph" => runGraph j
+  | "load" => Json.mkObj [("model", runLoad j)]
   | "decode" => Json.mkObj [("model", runDecode j)]
   | "validate" =>
     let a := runValidate j
